@@ -318,4 +318,11 @@ def R7_reorient(ctx):
     R5_reorient(ctx, "C03.R7")
 
 
-RULES = [R1_edge_step, R2_units, R3_one_slot, R4_turns, R5_summary, R6_edge_cost_formula, R7_reorient]
+def R8_declared_features(ctx):
+    """the values are reported in the units / start from the initial values that were declared last (configuration, then query):
+    the state model's construction and extension (shared with C11.R4)"""
+    from props.C11 import R4_state_model
+    R4_state_model(ctx)
+
+
+RULES = [R1_edge_step, R2_units, R3_one_slot, R4_turns, R5_summary, R6_edge_cost_formula, R7_reorient, R8_declared_features]
